@@ -2,7 +2,10 @@ package verifrt
 
 import (
 	"fmt"
+	"os"
 	"reflect"
+	"sync"
+	"runtime"
 	"runtime/debug"
 	"sort"
 	"strings"
@@ -61,6 +64,7 @@ type Thread struct {
 	eagerWait chan struct{}
 	// spin detection: atomics loaded since the last non-load operation, with the version seen
 	loads map[*atomCell]uint64
+	gid  string
 	Main bool // started by RunPhase (must finish) as opposed to spawned by instrumented code
 	Panic     string
 }
@@ -110,6 +114,8 @@ type sched struct {
 	tracing  bool
 	nameSeq  map[string]int
 	stuckDur time.Duration
+	tokLog   []string
+	noEager  bool
 }
 
 var s *sched
@@ -129,6 +135,14 @@ func BeginControlled() {
 func EndControlled() {
 	controlled.Store(false)
 	s = nil
+}
+
+// SetEagerStart(false) makes the start of every spawned goroutine a scheduling point of its own (needed when
+// the spawned code has visible effects before its first synchronisation operation, e.g. writes to a connection).
+func SetEagerStart(on bool) {
+	if s != nil {
+		s.noEager = !on
+	}
 }
 
 // SetTracing records a textual trace of scheduling steps (for replay artefacts).
@@ -173,6 +187,9 @@ func schedSpawn(f func(), daemon bool, name string) *Thread {
 	t.parked = true
 	sc.threads = append(sc.threads, t)
 	go func() {
+		if checkGoids {
+			t.gid = goid()
+		}
 		<-t.wake
 		defer func() {
 			if r := recover(); r != nil {
@@ -186,20 +203,23 @@ func schedSpawn(f func(), daemon bool, name string) *Thread {
 				ch <- struct{}{}
 				return
 			}
+			sc.tlog("exit:T%d", t.ID)
 			sc.events <- struct{}{}
 		}()
 		f()
 	}()
 	// Eager start: when spawned by a running thread, advance the child to its
 	// first synchronisation point before the parent continues.
-	if parent := sc.cur; parent != nil && !parent.parked {
+	if parent := sc.cur; parent != nil && !parent.parked && !sc.noEager {
 		t.eagerWait = make(chan struct{}, 1)
 		w := t.eagerWait
 		sc.cur = t
 		t.parked = false
+		sc.tlog("eagerstart:T%d by T%d", t.ID, parent.ID)
 		t.wake <- struct{}{}
 		<-w
 		sc.cur = parent
+		sc.tlog("eagerdone:T%d", t.ID)
 	}
 	return t
 }
@@ -211,16 +231,47 @@ func (sc *sched) park(t *Thread, op pendingOp) {
 	if t.eagerWait != nil {
 		ch := t.eagerWait
 		t.eagerWait = nil
+		sc.tlog("eagerpark:T%d:%s", t.ID, op.kind)
 		ch <- struct{}{}
 	} else {
+		sc.tlog("park:T%d:%s", t.ID, op.kind)
 		sc.events <- struct{}{}
 	}
 	<-t.wake
 }
 
+func goid() string {
+	var b [64]byte
+	n := runtime.Stack(b[:], false)
+	f := strings.Fields(string(b[:n]))
+	if len(f) > 1 {
+		return f[1]
+	}
+	return "?"
+}
+
+var checkGoids = os.Getenv("VERIF_CHECK_GOID") != ""
+
+var tokMu sync.Mutex
+
+func (sc *sched) tlog(format string, a ...any) {
+	if !checkGoids {
+		return
+	}
+	tokMu.Lock()
+	sc.tokLog = append(sc.tokLog, fmt.Sprintf(format, a...)+"@g"+goid())
+	if len(sc.tokLog) > 60 {
+		sc.tokLog = sc.tokLog[len(sc.tokLog)-60:]
+	}
+	tokMu.Unlock()
+}
+
 func curThread() *Thread {
 	if s == nil || s.cur == nil {
 		panic("verifrt: instrumented synchronisation outside a controlled thread")
+	}
+	if checkGoids && s.cur.gid != "" && s.cur.gid != goid() {
+		panic(fmt.Sprintf("verifrt: goroutine %s performs a synchronisation operation but the running thread is T%d[%s] (goroutine %s)\n%s", goid(), s.cur.ID, s.cur.Name, s.cur.gid, debug.Stack()))
 	}
 	return s.cur
 }
@@ -266,6 +317,7 @@ func RunPhase(chooser Chooser, names []string, mains ...func()) PhaseResult {
 	sc := s
 	sc.chooser = chooser
 	sc.cur = nil
+	sc.tlog("phase-begin")
 	for i, m := range mains {
 		n := fmt.Sprintf("main%d", i)
 		if i < len(names) {
@@ -289,6 +341,11 @@ func RunPhase(chooser Chooser, names []string, mains ...func()) PhaseResult {
 		if len(sc.panics) > 0 {
 			res.Panics = append(res.Panics, sc.panics...)
 			sc.panics = nil
+		}
+		for _, t := range sc.threads {
+			if !t.done && !t.parked {
+				panic(fmt.Sprintf("verifrt: scheduler about to decide while T%d[%s] is still running (token log: %v)", t.ID, t.Name, sc.tokLog))
+			}
 		}
 		var enabled []*Thread
 		for _, t := range sc.threads {
@@ -377,6 +434,7 @@ func (sc *sched) release(t *Thread) {
 	sc.cur = t
 	t.parked = false
 	sc.running++
+	sc.tlog("release:T%d", t.ID)
 	t.wake <- struct{}{}
 }
 
